@@ -353,3 +353,9 @@ From SK Require Import proof.C18_WLBound.
 Example ex_wl_estimate : length (auts g1) = 2 /\ estimate (map (@length N) (cellsB g1 true true 20)) 1%N CAP0 = 4%N /\
   estimate (map (@length N) (cellsB g1 true true 20)) 1%N 3%N = 3%N.
 Proof. vm_compute. auto. Qed.
+
+(** C18_attr_count_ge_vf2: on the example both tools report 2 under (bipartite), 2 under (kind; absent key) *)
+From SK Require Import proof.C18_Cross.
+Example ex_cross : length (autsA g1 lt1 [NBip]) = 2 /\ length (snd (canon_searchA g1 lt1 [NBip] [ERole; EStoich])) = 2 /\
+  Forall (fun x => x <> NLabel) [NBip].
+Proof. split; [vm_compute; reflexivity|]. split; [vm_compute; reflexivity|]. repeat constructor; discriminate. Qed.
